@@ -740,13 +740,11 @@ class ItemGrader(AbstractGrader):
             output = json.dumps(inferred)  # How to avoid unicode 'u' showing up!
             self.log("Expect value inferred to be {}".format(output))
 
-            # Validate the answers
-            self.config['answers'] = self.schema_answers(inferred)
-            # Note that this answer is now stored for future calls, but
-            # will be overridden if a new expect value is provided.
-
-            # Perform post-schema answer validation
-            self.config['answers'] = self.post_schema_ans_val(self.config['answers'])
+            # Validate the answers, including post-schema answer validation
+            answers = self.post_schema_ans_val(self.schema_answers(inferred))
+            # Only an answer that passed all validation is stored for future calls
+            # (it will be overridden if a new expect value is provided).
+            self.config['answers'] = answers
 
             # Mark that we are using inferred answers
             self.inferring_answers = True
